@@ -42,9 +42,6 @@ def Date.succ (dt : Date) : Date :=
 
 def Date.isMonthEnd (dt : Date) : Bool := dt.d == dim dt.y dt.m
 
-/-- `12*year + month` as in `bermuda.date_utils.month_to_id` -/
-def Date.monthId (dt : Date) : Int := 12 * dt.y + dt.m
-
 /-- CPython `_days_before_year` -/
 def daysBeforeYear (y : Int) : Int :=
   let y' := y - 1
